@@ -339,7 +339,7 @@ def sweep(ctx, sw, rng):
     #    oracle only: ALL triples of width <= 5 (quick) / <= 7 (thorough), every operand pair
     for trip in itertools.product(formats_upto(3), repeat=3):
         sw.table('mul', trip)
-    for trip in rng.sample(list(itertools.product(small, repeat=3)), 40 if quick else 1200):
+    for trip in rng.sample(list(itertools.product(small, repeat=3)), 120 if quick else 1200):
         sw.table('mul', trip)
     if sw.failed: return st, st2
     ctx.log('small tables driven: %d rows' % sw.n_rows)
@@ -350,7 +350,7 @@ def sweep(ctx, sw, rng):
         if sw.failed: return st, st2
     ctx.log('mixed-format multiplier tables driven (rational oracle): %d rows so far' % sw.n_rows)
     # 4. wide formats: boundary x boundary + random operands, up to 64 bits
-    nbig = 12 if quick else 160
+    nbig = 30 if quick else 160
     for k in range(nbig):
         F = rand_format(rng, 7, 64) if k else (1, 31, 32)
         rows = big_rows(rng, width(F), width(F), 14)
